@@ -197,6 +197,17 @@ def run(ctx):
     ctx.count("functions_folded")
     check_ess(ctx, "C02.ess", f.ident, loc_of(f), ret, T.atom(f.params[0]))
 
+    lwp = T.atom(f.params[0])
+    worst = None
+    for a in exp_args(ret):
+        cls_, why = exp_is_bounded(a, {lwp: 1})
+        if cls_ == "unbounded":
+            worst = (a, why)
+            break
+    ctx.decide(worst is None, "C02.ovf", f.ident, loc_of(f), "every exp() in the ESS helper has a max/LSE-shifted or shift-invariant exponent", 
+               f"the ESS helper evaluates exp({T.show(worst[0])[:120] if worst else ''}) of unshifted log-weights ({worst[1] if worst else ''}): for log-weights of large magnitude "
+               "all weights underflow or overflow and the ESS becomes nan / garbage", disc="helper")
+
     f = repo.func("aspire.utils:logsumexp")
     ev, ret = fold(repo, f)
     ctx.count("functions_folded")
@@ -319,6 +330,7 @@ MUTANTS = [
       "C02.ovf", within="Samples.compute_weights"),
 ]
 MUTANTS += [
+    M("ESS helper in the plain Kish form", _U, "return xp.exp(xp.asarray(logsumexp(log_w) * 2 - logsumexp(log_w * 2)))", "w = xp.exp(log_w)\n    return xp.sum(w) ** 2 / xp.sum(w**2)", "C02.ovf"),
     M("weights of the squared log-weight", _S, "self.weights = self.xp.exp(self.log_w)", "self.weights = self.xp.exp(2 * self.log_w)", "C02.derived"),
     M("evidence error divides by N squared", _S, "self.xp.sum((self.weights - self.evidence) ** 2) / (n * (n - 1))", "self.xp.sum((self.weights - self.evidence) ** 2) / (n * n)", "C02.derived"),
     M("relative error without centring", _S, "self.xp.sum((rel_w - 1.0) ** 2) / (n * (n - 1))", "self.xp.sum(rel_w ** 2) / (n * (n - 1))", "C02.derived"),
